@@ -28,6 +28,12 @@ func (q QualifierIO) String() string {
 	case QuotedQualifier:
 		return fmt.Sprintf("/%s=\"%s\"", name, escapeQuotes(value))
 	case LiteralQualifier:
+		if strings.HasPrefix(value, "\"") && !searchString(name, builtinQualifierNames) {
+			// The name was only learnt as literal from some record read
+			// earlier; a reader that has not learnt it would take the leading
+			// double quote of this value for the start of a quoted value.
+			return fmt.Sprintf("/%s=\"%s\"", name, escapeQuotes(value))
+		}
 		return fmt.Sprintf("/%s=%s", name, value)
 	case ToggleQualifier:
 		if value != "" && !searchString(name, builtinQualifierNames) {
@@ -353,33 +359,32 @@ func QualifierParser(prefix string) pars.Parser {
 		}
 		name := string(result.Token)
 
-		switch qtype := GetQualifierType(name); qtype {
-		case UnknownQualifier:
-			switch {
-			case quotedParser(state, result) == nil:
-				RegisterQuotedQualifier(name)
-			case literalParser(state, result) == nil:
-				RegisterLiteralQualifier(name)
-			case toggleParser(state, result) == nil:
-				RegisterToggleQualifier(name)
+		switch qtype := GetQualifierType(name); {
+		case searchString(name, builtinQualifierNames):
+			if err := valueParsers[qtype](state, result); err != nil {
+				return err
 			}
 		default:
-			if err := valueParsers[qtype](state, result); err != nil {
-				if searchString(name, builtinQualifierNames) {
-					return err
+			// The form of a name gts has no type for is learnt from its first
+			// occurrence, but a flag may well carry a value elsewhere, a valued
+			// name may appear bare and a value that starts with a double quote
+			// is always written quoted: read the form that is there.
+			switch {
+			case quotedParser(state, result) == nil:
+				if qtype == UnknownQualifier {
+					RegisterQuotedQualifier(name)
 				}
-				// The form of a name gts has no type for is learnt from its
-				// first occurrence, but a flag may well carry a value elsewhere
-				// and a valued name may appear bare: read the form that is there.
-				ok := false
-				for t, parser := range valueParsers {
-					if QualifierType(t) != qtype && parser(state, result) == nil {
-						ok = true
-						break
-					}
+			case literalParser(state, result) == nil:
+				if qtype == UnknownQualifier {
+					RegisterLiteralQualifier(name)
 				}
-				if !ok {
-					return err
+			case toggleParser(state, result) == nil:
+				if qtype == UnknownQualifier {
+					RegisterToggleQualifier(name)
+				}
+			default:
+				if qtype != UnknownQualifier {
+					return valueParsers[qtype](state, result)
 				}
 			}
 		}
